@@ -24,12 +24,14 @@ type ecsRunner struct {
 	w     ecs.World
 	ncomp int
 	h     []ecs.Entity
+	held  *ecs.Result // op `hold`: a result kept across later operations
 }
 
 func (r *ecsRunner) Reset() {
 	r.w = ecs.NewWorld()
 	r.ncomp = 0
 	r.h = nil
+	r.held = nil
 }
 
 var int64Type = reflect.TypeOf(int64(0))
@@ -257,6 +259,56 @@ func (r *ecsRunner) Step(t []string) string {
 		}
 		res := r.w.Query(q)
 		return fmt.Sprintf("%d %s", res.Count(), proto.FmtInts(r.names(res.Entities())))
+	case t[0] == "hold":
+		// a query result is a value: it is kept and printed again by `held` after other operations
+		q, ok := wholeFilter(t[1:])
+		if !ok {
+			return "bad-op"
+		}
+		r.held = r.w.Query(q)
+		return fmt.Sprintf("%d %s", r.held.Count(), proto.FmtInts(r.names(r.held.Entities())))
+	case t[0] == "held" && n == 1:
+		if r.held == nil {
+			return "0 []"
+		}
+		var es []ecs.Entity
+		it := r.held.Iterator()
+		for it.Next() {
+			es = append(es, it.Entity())
+		}
+		if a, b := proto.FmtInts(r.names(es)), proto.FmtInts(r.names(r.held.Entities())); a != b {
+			return fmt.Sprintf("%d %s iterator-differs %s", r.held.Count(), b, a)
+		}
+		return fmt.Sprintf("%d %s", r.held.Count(), proto.FmtInts(r.names(es)))
+	case t[0] == "qkill" && n >= 3:
+		// walk a fresh result with Each and annihilate the entity named h at the first visit
+		h, ok := nat(t[1])
+		q, ok2 := wholeFilter(t[2:])
+		if !ok || !ok2 {
+			return "bad-op"
+		}
+		if h >= len(r.h) {
+			return "bad-op"
+		}
+		var es []ecs.Entity
+		count := 0
+		r.w.QueryF(q, func(res *ecs.Result) {
+			count = res.Count()
+			first := true
+			res.Each(func(e ecs.Entity) bool {
+				if first {
+					first = false
+					r.w.Annihilate(r.h[h])
+				}
+				es = append(es, e)
+				return true
+			})
+		})
+		if count == 0 {
+			// nothing was visited: the annihilation still happens (the model composes query and kill)
+			r.w.Annihilate(r.h[h])
+		}
+		return fmt.Sprintf("%d %s", count, proto.FmtInts(r.names(es)))
 	case t[0] == "qiter" && n >= 2:
 		c, ok := nat(t[1])
 		q, ok2 := wholeFilter(t[2:])
